@@ -448,6 +448,22 @@ def multi_degree():
 
 
 @entry("quick")
+def geometry_tables_in_one_rule_only():
+    """two quadrature rules in one kernel, a table-backed geometric quantity (reference normal, reference cell volume,
+    facet area) only in the integrand of ONE of them - in both positions of UFL's integrand order"""
+    ufl, _, _ = _U()
+    m = mesh("triangle")
+    V = space(m, "Lagrange", 1)
+    v = ufl.TestFunction(V)
+    x, n = ufl.SpatialCoordinate(m), ufl.FacetNormal(m)
+    L1 = n[0] * v * ufl.ds(degree=1) + x[0] ** 2 * v * ufl.ds(degree=3)
+    L2 = v * ufl.ds(degree=1) + ufl.FacetArea(m) * x[0] ** 2 * n[1] * v * ufl.ds(degree=3)
+    L3 = ufl.CellVolume(m) * v * ufl.dx(degree=1) + x[0] ** 2 * v * ufl.dx(degree=3)
+    L4 = v * ufl.dx(degree=1) + ufl.CellVolume(m) * x[1] ** 2 * v * ufl.dx(degree=3)
+    return [L1, L2, L3, L4], {}
+
+
+@entry("quick")
 def same_size_rules():
     """different rules with the SAME number of points, same integrand structure, in one integral: anything cached
     per rule size (temporaries, tables, weights) collides here and nowhere else."""
@@ -772,6 +788,16 @@ def restricted_coefficient_in_expression():
     m = mesh("triangle")
     f = ufl.Coefficient(space(m, "Lagrange", 1))
     return [(f("-") + ufl.avg(f), np.array([[0.25], [0.5]]))], {}, "expr"
+
+
+@unsupported
+def modified_bessel_functions():
+    """bessel_I / bessel_K have no counterpart in C's math library"""
+    ufl, _, _ = _U()
+    m = mesh("triangle")
+    V = space(m, "Lagrange", 1)
+    v, f = ufl.TestFunction(V), ufl.Coefficient(V)
+    return [(ufl.bessel_I(1, f) + ufl.bessel_K(0, 2 + f * f)) * v * ufl.dx], {}, "form"
 
 
 @unsupported
